@@ -4,7 +4,7 @@ with it, the demo exits 1 with it and 0 without it.  Confirmed ones are copied t
 import json, os, shutil, subprocess, sys
 from concurrent.futures import ThreadPoolExecutor
 
-SRC = '/tmp/seed_out'
+SRC = os.environ.get('SEED_SRC', '/tmp/seed_out')
 DST = '/verif/seeded'
 PY = '/venv/bin/python'
 
